@@ -78,6 +78,11 @@ pub fn gen_pair(r: &mut Rng, quick: bool) -> PairSpec {
 		3 => vec![1024],
 		_ => vec![4096, 1, 333],
 	};
+	if len > 17000 && slice.is_none() && r.chance(0.35) {
+		// callbacks whose size divides 16383 = 3 x 43 x 127: one of them begins exactly when the 16384-slot ring between the
+		// decoder thread and the sound wraps (rate 1, device at the sound's rate, so one output frame consumes one ring slot)
+		return PairSpec { len, sr, dev_sr: sr, slice: None, start: 0, lp, rate: 1.0, vol_db: 0.0, pan: 0.0, fade_in: None, delay_start: None, packets, seek_gran: 1, chunk: *r.pick(&[381usize, 5461]), seed: r.next() };
+	}
 	PairSpec {
 		len,
 		sr,
